@@ -3,11 +3,15 @@ mod fw;
 mod gen;
 mod notation;
 mod p_codec;
+mod p_ffi;
 mod p_hex;
 mod p_misc;
 mod p_rx;
 mod p_ts;
 use fw::*;
+
+#[global_allocator]
+static ALLOC: p_ffi::Counting = p_ffi::Counting;
 
 fn exec(line: &str, model: &mut Model) -> Option<Exec> {
     let op = line.split(' ').next().unwrap_or("");
@@ -20,6 +24,7 @@ fn exec(line: &str, model: &mut Model) -> Option<Exec> {
         "validate" | "id" | "idpair" | "info" | "upd" | "seq" => p_misc::exec(line, model),
         "rx" | "fault" | "cor" => p_rx::exec(line, model),
         "ts.run" => p_ts::exec(line, model),
+        "ffi" => p_ffi::exec(line, model),
         _ => None,
     }
 }
@@ -95,6 +100,7 @@ fn main() {
         match prop.as_str() {
             "C18" => p_hex::generate(&mut ctx, &mut rep, &mut emit),
             "C01" | "C02" | "C03" | "C04" | "C15" => p_codec::generate(&prop, &mut ctx, &mut rep, &mut emit),
+            "C14" => p_ffi::generate(&mut ctx, &mut rep, &mut emit),
             "C09" => p_ts::generate(&mut ctx, &mut rep, &mut emit),
             "C05" | "C06" | "C19" => p_rx::generate(&prop, &mut ctx, &mut rep, &mut emit),
             "C07" | "C08" | "C10" | "C11" | "C12" | "C13" | "C17" => p_misc::generate(&prop, &mut ctx, &mut rep, &mut emit),
